@@ -949,7 +949,7 @@ def plan(tier, seed, seam_ok, notes):
             if seam_ok:
                 ep = []
                 for f in zf:
-                    ep.extend(range(f.payload_start, min(f.end, f.payload_start + 8)))
+                    ep.extend(range(f.payload_start, min(f.end, f.payload_start + 4)))
                 for f in fc.fields:
                     if f.fid in (2, 3, 4, 6, 7):
                         ep.extend(range(f.payload_start, min(f.end, f.payload_start + 16)))
